@@ -241,14 +241,14 @@ func (r *RibEntry) CleanUpFace(faceId uint64) {
 		return
 	}
 
-	for i, route := range r.routes {
-		if route.FaceID == faceId {
+	// Remove every route using the face (there may be one per origin)
+	for i := len(r.routes) - 1; i >= 0; i-- {
+		if route := r.routes[i]; route.FaceID == faceId {
 			if i < len(r.routes)-1 {
 				copy(r.routes[i:], r.routes[i+1:])
 			}
 			r.routes = r.routes[:len(r.routes)-1]
 			readvertiseWithdraw(r.Name, route)
-			break
 		}
 	}
 	r.updateNexthopsEnc()
